@@ -230,3 +230,17 @@ def op_freeze311(c):
         return out
     except Exception as e:
         return {"error": type(e).__name__ + ": " + str(e)[:200]}
+
+
+def op_positions311_units(c):
+    """the module-level parse_positions(): one (line, end line, column, end column) per code unit.  It reports a missing column as -1
+    where co_positions() and CPython report None; the observation maps -1 to None (recorded as a reported, unrepaired difference)"""
+    from xdis.codetype.code311 import parse_positions
+    try:
+        ps = list(parse_positions(bytes(c["tab"]), c["first"]))
+    except Exception as e:
+        return errobs(e)
+    out = [0, len(ps)]
+    for a, b, cc, d in ps:
+        out += opt(a) + opt(b) + opt(None if cc == -1 else cc) + opt(None if d == -1 else d)
+    return out
